@@ -5,6 +5,7 @@ const FMT_PREFIX_BIT: usize = 0b00001_00000000;
 const FMT_TAGS_BIT: usize = 0b00010_00000000;
 const FMT_FITSCREEN_BIT: usize   = 0b00100_00000000;
 const FMT_UPCASE_BIT: usize = 0b01000_00000000;
+const FMT_ALL_BITS: usize = FMT_BASE_MASK | FMT_PREFIX_BIT | FMT_TAGS_BIT | FMT_FITSCREEN_BIT | FMT_UPCASE_BIT;
 
 pub struct FmtFlags(usize);
 
@@ -81,6 +82,6 @@ impl FmtFlags {
     }
 
     pub fn from_raw(flags: usize) -> Self {
-        FmtFlags(flags)
+        FmtFlags(flags & FMT_ALL_BITS)
     }
 }
